@@ -2015,3 +2015,58 @@ theorem C18_limit_exact_iff (W : World) (Q : Quirks) (hQ : Q.falsyRoute = false)
     rw [((C18_limit_exact W Q hQ E fuel c T v).2 r hr).2 hres]; rfl
 
 end Utv.C18
+
+namespace Utv.C18
+
+/-! ### the single-`d` statement of the property, and where the unchanged code departs from it
+
+The property says "with `max_depth = d` a value is accepted exactly when its nesting depth is at most `d`".  The code
+gives every class its own limit (`C18_limit_exact`).  When all classes of the declaration carry the same `d`
+(`uniformLimits`, decidable) `Respects` is `rdepth r ≤ d` and the single-`d` statement follows (`C18_depth_exact`,
+`C18_depth_exact_iff`, restated below for a declaration that *is* uniform rather than made uniform).
+
+Known defect `limit-not-inherited` (full statement kept visible):
+
+    theorem C18_root_limit : limit of the root class = some d → parseTop … = .ok r → rdepth r ≤ d
+
+is **false** of the code when a nested class declares no (or a larger) limit: `C18_limit_not_inherited_witness`. -/
+
+/-- every class of the declaration declares `max_depth = d` -/
+def uniformLimits (d : Nat) (E : Env) : Bool := E.all fun cd => cd.maxDepth == some d
+
+theorem withLimit_of_uniform (d : Nat) (E : Env) (h : uniformLimits d E = true) : withLimit d E = E := by
+  simp only [uniformLimits, List.all_eq_true, beq_iff_eq] at h
+  simp only [withLimit]
+  conv => rhs; rw [← List.map_id E]
+  apply List.map_congr_left
+  intro cd hcd
+  have := h cd hcd
+  cases cd
+  simp_all
+
+/-- the property's single-`d` biconditional, for declarations whose classes all declare that `d` (partial: outside the
+known defect `limit-not-inherited`) -/
+theorem C18_root_limit_partial (W : World) (Q : Quirks) (hQ : Q.falsyRoute = false) (hR : Q.rootLevel = false)
+    (E : Env) (hE : envUnamb E = true) (d : Nat) (hd : d ≠ 0) (hu : uniformLimits d E = true)
+    (fuel : Nat) (via : Bool) (k : Nat) (v : Val) :
+    (parseTop W Q E fuel via k v).1.isOk = true ↔
+      ∃ r, (parseTop W Q (unlimited E) fuel via k v).1 = .ok r ∧ rdepth r ≤ d := by
+  have := C18_depth_exact_iff W Q hQ hR E hE d hd fuel via k v
+  rwa [withLimit_of_uniform d E hu] at this
+
+/-- **negation witness**: class 0 declares `max_depth = 1`, its field is of the recursive class 1 that declares no
+limit: a value of nesting depth 4 is accepted (the corpus replays depth 7 on the real code) -/
+theorem C18_limit_not_inherited_witness :
+    let E : Env := [{ fields := [("v", .leaf), ("b", .data 1)], maxDepth := some 1 },
+                    { fields := [("v", .leaf), ("nx", .union [.data 1, .none])] }]
+    let v := Val.dict [(.str "b", twoLevels (twoLevels leafNode))]
+    uniformLimits 1 E = false ∧
+    (match (parseTop W0 Quirks.fixed E 20 false 0 v).1 with
+     | .ok r => rdepth r
+     | .err _ => 0) = 4 := by
+  decide
+
+/-- non-vacuity of `uniformLimits` -/
+example : uniformLimits 3 (withLimit 3 nodeEnv) = true := by decide
+
+end Utv.C18
